@@ -30,6 +30,7 @@ void     vs_join(int h);
 void     vs_yield(void);
 void     vs_stats(long *steps, long *switches, long *preempts);
 int      vs_enabled(void);
+void     vs_dump(const char *why); // thread table to stderr (debugging)
 uint32_t vs_random(void); // the deterministic stream that also feeds nni_random
 
 #ifdef __cplusplus
